@@ -1,0 +1,77 @@
+//go:build verif
+
+package interp
+
+import "sort"
+
+// This file is only compiled with the verif build tag. It exports thin wrappers around the
+// unexported selector / method-set functions of type.go so that an external harness can
+// compare them, function by function, with their formal model. It adds no behaviour.
+
+// VerifC05Sel is the raw answer of the three lookups used by the selectorExpr case of cfg.go.
+type VerifC05Sel struct {
+	FieldPath   []int  // (*itype).lookupField
+	MethFound   bool   // (*itype).lookupMethod: node != nil
+	MethPath    []int  // index path returned with the method node
+	MethRecv    string // id of the receiver type recorded on the method's function type ("" if none)
+	MethodDepth int    // (*itype).methodDepth
+}
+
+func (interp *Interpreter) verifC05Type(typeName string, ptr bool) *itype {
+	interp.mutex.RLock()
+	defer interp.mutex.RUnlock()
+	sc := interp.scopes[mainID]
+	if sc == nil {
+		return nil
+	}
+	sym := sc.sym[typeName]
+	if sym == nil || sym.kind != typeSym || sym.typ == nil {
+		return nil
+	}
+	if ptr {
+		return ptrOf(sym.typ)
+	}
+	return sym.typ
+}
+
+// VerifC05Lookup exposes lookupField, lookupMethod and methodDepth on a type declared in main.
+func (interp *Interpreter) VerifC05Lookup(typeName string, ptr bool, name string) (r VerifC05Sel, ok bool) {
+	t := interp.verifC05Type(typeName, ptr)
+	if t == nil {
+		return r, false
+	}
+	r.FieldPath = t.lookupField(name)
+	m, path := t.lookupMethod(name)
+	if m != nil {
+		r.MethFound = true
+		r.MethPath = path
+		if m.typ != nil && m.typ.recv != nil {
+			r.MethRecv = m.typ.recv.id()
+		}
+	}
+	r.MethodDepth = t.methodDepth(name)
+	return r, true
+}
+
+// VerifC05Methods exposes the key set of (*itype).methods, sorted.
+func (interp *Interpreter) VerifC05Methods(typeName string, ptr bool) (names []string, ok bool) {
+	t := interp.verifC05Type(typeName, ptr)
+	if t == nil {
+		return nil, false
+	}
+	for k := range t.methods() {
+		names = append(names, k)
+	}
+	sort.Strings(names)
+	return names, true
+}
+
+// VerifC05Implements exposes (*itype).implements, assignableTo and equals between two types declared in main.
+func (interp *Interpreter) VerifC05Implements(typeName string, ptr bool, ifaceName string) (implements, assignable, equals, ok bool) {
+	t := interp.verifC05Type(typeName, ptr)
+	it := interp.verifC05Type(ifaceName, false)
+	if t == nil || it == nil {
+		return false, false, false, false
+	}
+	return t.implements(it), t.assignableTo(it), t.equals(it), true
+}
